@@ -115,3 +115,39 @@ def _port_name_without_nul(b, raw, offset):
 
 
 _mk_accept("ofp_port_status", _eq(64), pre=_port_name_without_nul, note=" (port name without NUL)")
+
+
+# ---- Nicira vendor messages are decoded through nicira_base.unpack, which the vendor dispatcher calls directly (not through
+# unpack_new, so nothing re-checks the length there): the offset it reports must be the one its body decoder REACHED - that is
+# what Connection.read compares with the declared length.  (Seeded change C10_10 reported start + declared length instead: a
+# role reply declaring 16 bytes was then accepted with its role field read from the header of the following message.)
+import pox.openflow.nicira as _nx
+from spec.nx_layout import SIZEOF as _NXSIZE
+
+
+def _mk_nx(cname):
+  cls = getattr(_nx, cname)
+  size = _NXSIZE[cname]
+
+  def u(b):
+    raw = b.bytes("raw", None, 8, 70000)
+    n = len(raw) if b.mode == "conc" else raw.length()
+    offset = b.int("offset", 0, 70000)
+    b.assume(n - offset >= size)
+    if b.mode == "sym":
+      from pyvc import sbytes as sb
+      L = sb.byte_at(raw, offset + 2, b.st) * 256 + sb.byte_at(raw, offset + 3, b.st)
+    else:
+      L = declared(raw, offset)
+    def run(raw, offset):
+      o = cls()
+      return o.unpack(raw, offset)
+    return Case(run, [raw, offset], raises={}, ensures={
+      "reports_the_offset_its_decoder_reached_and_the_declared_length": lambda res: res[0] == offset + size and res[1] == L,
+    })
+  u.__name__ = "arbitrary_bytes_nicira_" + cname
+  unit(P, target="pox.openflow.nicira:nicira_base.unpack / " + cname + "._unpack_body")(u)
+
+
+for _n in ("nx_flow_mod_table_id", "nx_packet_in_format", "nx_role_request", "nx_role_reply", "nx_async_config"):
+  _mk_nx(_n)
